@@ -24,14 +24,18 @@ def names(rng, n, prefix, pool=None):
 
 
 class Scenario:
-    def __init__(self, n, c, k, sensors, seed=0, transcendental=False, pool=None, linear=False, branchy=False, share_reading=False, rational=False):
+    def __init__(self, n, c, k, sensors, seed=0, transcendental=False, pool=None, linear=False, branchy=False, share_reading=False, rational=False, assumptions=False):
         rng = random.Random(seed * 7919 + n * 131 + c * 17 + k * 5 + sum(sensors))
         self.rng = rng
         self.n, self.c, self.k, self.sensors = n, c, k, list(sensors)
         self.dt = sympy.Symbol("dt")
-        self.state = [sympy.Symbol(s) for s in names(rng, n, "s_", pool)]
-        self.calibration = [sympy.Symbol(s) for s in names(rng, c, "c_", pool)]
-        self.control = [sympy.Symbol(s) for s in names(rng, k, "u_", pool)]
+        # assumptions=True: symbols carry sympy assumptions (real / positive), as users declare them for physical quantities;
+        # Symbol('x', real=True) is a DIFFERENT symbol from Symbol('x')
+        kw_s = {"real": True} if assumptions else {}
+        kw_u = {"positive": True} if assumptions else {}
+        self.state = [sympy.Symbol(s, **kw_s) for s in names(rng, n, "s_", pool)]
+        self.calibration = [sympy.Symbol(s, **kw_s) for s in names(rng, c, "c_", pool)]
+        self.control = [sympy.Symbol(s, **kw_u) for s in names(rng, k, "u_", pool)]
         allsyms = self.state + self.calibration + self.control
         coef = lambda: sympy.Integer(rng.choice([2, 3, 5, 7, 11, 13])) / rng.choice([1, 2, 4])
         self.state_model = {}
